@@ -87,6 +87,7 @@ type mstream struct {
 	extCorrupt bool // a chunk of an external file with altered data was accepted (probe)
 	unknown    bool // the statement does not say what state the receiver is in
 	corrupt    string
+	refused    string
 	otherSince bool // chunks of other keys were delivered since the last accepted chunk
 	rejSince   bool // chunks of this key were rejected since the stream started
 	files      map[string][]byte
